@@ -521,6 +521,9 @@ func mergeProllyTableData(ctx *sql.Context, tm *TableMerger, finalSch schema.Sch
 	}
 
 	finalArtifacts, err := conflicts.finalize(ctx)
+	if err != nil {
+		return nil, nil, err
+	}
 
 	// collect merged data in |finalTbl|
 	finalTbl, err := mergeTbl.UpdateRows(ctx, finalRows)
